@@ -228,4 +228,30 @@ def run(ctx):
                 ctx.fail('C11/eval-exception', f'use of an old model after switch-then-fit raised {type(e).__name__}', {'history': history, 'spec': spec}, str(e)[:200])
             ctx.tally('directed_fit_first', f'{tb}/{tp}/{ncode}')
             del old_model; gc.collect()
+    # ---------------- directed: an object dies *during* the dispatch (a subscriber of the caller releases the last reference to an object
+    # subscribed earlier); objects subscribed after it must still be refreshed
+    class _Cache:
+        def __init__(self): self.items = []
+        def clear(self, *a, **k): self.items.clear()
+    for h in range(ctx.n(4, 40)):
+        pyhf.set_backend('numpy', 'scipy', precision='64b'); gc.collect()
+        cache = _Cache()
+        for _k in range(rng.randint(1, 2)):
+            o, payload = make_object(pyhf, rng, rng.choice(['model', 'viewer', 'interp'])); cache.items.append(o); del o
+        events.subscribe('tensorlib_changed')(cache.clear)
+        survivors = []
+        for _k in range(rng.randint(2, 4)):
+            what = rng.choice(['model', 'viewer', 'interp'])
+            o, payload = make_object(pyhf, rng, what); survivors.append([what, o, 0, payload]); del o
+        history = [['park-in-cache', len(cache.items)], ['subscribe', 'cache.clear'], ['create', [x[0] for x in survivors]]]
+        for k in rng.sample(range(1, len(BKS) - (0 if ctx.thorough else 2)), 2):
+            try:
+                pyhf.set_backend(BKS[k][0], precision=BKS[k][1])
+            except Exception as e:  # noqa
+                ctx.fail('C11/switch-raises', f'set_backend raised {type(e).__name__} after an object died during an earlier dispatch', {'history': history}, str(e)[:150]); break
+            history.append(['set_backend', BKS[k][0], BKS[k][1]])
+            for i, x in enumerate(survivors): eval_object(ctx, pyhf, x, history, i)
+            o, payload = make_object(pyhf, rng, 'model'); cache.items.append(o); del o      # parked again: dies at the next switch
+        ctx.tally('directed_history', 'death-during-dispatch')
+        del cache, survivors; gc.collect()
     pyhf.set_backend('numpy', 'scipy', precision='64b')
